@@ -1536,10 +1536,12 @@ fn display_cedarvaluejson(
                 }
             });
             match style {
-                Some(ast::CallStyle::MethodStyle) => {
+                // (a method-style function given no arguments at all has no
+                // receiver to print: fall through to the function-style form)
+                Some(ast::CallStyle::MethodStyle) if !args.is_empty() => {
                     #[expect(
                         clippy::indexing_slicing,
-                        reason = "method-style calls must have more than one argument"
+                        reason = "checked above that there is at least one argument"
                     )]
                     display_cedarvaluejson(f, &args[0], n)?;
                     write!(f, ".{ext_fn}(")?;
@@ -1560,7 +1562,7 @@ fn display_cedarvaluejson(
                     write!(f, ")")?;
                     Ok(())
                 }
-                Some(ast::CallStyle::FunctionStyle) | None => {
+                Some(_) | None => {
                     write!(f, "{ext_fn}(")?;
                     match &args[..] {
                         [] => {}
